@@ -26,7 +26,7 @@ type c07Case struct {
 	Session  string `json:"session,omitempty"` // session implementation handed to the library
 }
 
-var c07Kinds = []string{"code", "at-code", "at-password", "at-cc", "at-refresh", "at-implicit", "at-device", "at-jwtbearer", "jwt-at-code", "rt-code", "rt-password", "rt-refresh", "rt-unlimited",
+var c07Kinds = []string{"code", "at-code", "at-password", "at-cc", "at-refresh", "at-implicit", "at-device", "at-jwtbearer", "jwt-at-code", "jwt-at-refresh", "rt-code", "rt-password", "rt-refresh", "rt-unlimited",
 	"device-code", "user-code", "par", "bearer-assertion", "client-assertion", "at-as-bearer", "at-password/abandoned-refresh", "at-code/abandoned-redeem"}
 var c07AgesRel = []int{-1000000, -10, -3, -2, 2, 3, 10, 30, 3600, 86400}
 var c07AgesDeep = []int{-1000000, -86400, -3600, -600, -60, -10, -5, -4, -3, -2, 2, 3, 4, 5, 10, 30, 60, 600, 3600, 86400, 2592000, 31536000}
@@ -87,7 +87,7 @@ func c07Leff(kind, source string) int {
 		return ov("PasswordGrantAccessTokenLifespan", "at")
 	case "at-cc":
 		return ov("ClientCredentialsGrantAccessTokenLifespan", "at")
-	case "at-refresh":
+	case "at-refresh", "jwt-at-refresh":
 		return ov("RefreshTokenGrantAccessTokenLifespan", "at")
 	case "at-implicit":
 		return ov("ImplicitGrantAccessTokenLifespan", "at")
@@ -126,7 +126,7 @@ func c07Run(c c07Case, res *WRes) {
 	if c.Kind == "rt-unlimited" {
 		p.RTLifespan = -1
 	}
-	if c.Kind == "jwt-at-code" {
+	if strings.HasPrefix(c.Kind, "jwt-at-") {
 		p.JWTAccess = true
 	}
 	w := NewWorld(p)
@@ -172,7 +172,7 @@ func c07Run(c c07Case, res *WRes) {
 		ao := authz("code", "offline a")
 		code := ao.Param("code")
 		present = func() (bool, *Obs) { o := redeem(code); return issued(o), o }
-	case "at-code", "rt-code", "jwt-at-code", "rt-unlimited", "at-refresh", "rt-refresh", "at-as-bearer":
+	case "at-code", "rt-code", "jwt-at-code", "jwt-at-refresh", "rt-unlimited", "at-refresh", "rt-refresh", "at-as-bearer":
 		to := redeem(authz("code", "offline a").Param("code"))
 		if strings.HasSuffix(c.Kind, "-refresh") {
 			to = w.Token(url.Values{"grant_type": {"refresh_token"}, "refresh_token": {to.Str("refresh_token")}}, auth)
@@ -200,7 +200,7 @@ func c07Run(c c07Case, res *WRes) {
 			}
 		default:
 			advertised = ei(to)
-			if c.Kind == "jwt-at-code" {
+			if strings.HasPrefix(c.Kind, "jwt-at-") {
 				if _, cl, err := decodeJWT(at); err == nil {
 					if e, ok := cl["exp"].(float64); ok {
 						adv2 := e - float64(w.Now().Unix())
@@ -524,7 +524,7 @@ func init() {
 					continue
 				}
 				sessions := []string{"", "openid"}
-				if k == "jwt-at-code" {
+				if strings.HasPrefix(k, "jwt-at-") {
 					sessions = []string{"", "jwt"}
 				}
 				jobs = append(jobs, c07Job{Kind: k, Source: s, Sessions: sessions, Offsets: offsets, Ages: ages})
